@@ -10,13 +10,15 @@ package main
 //	                 additional stage  tc:<spanSec>  = `| timechart span=<n>s count`
 //	seg            : number of the segment (0 = events before the first `ro`, …)
 //	file           : csg:<column> | cmi:<column> | bsu | sst | sfm | segmeta | pqmr:<i> | crup:<i>     (i-th file of that kind, by name)
-//	mutation       : none | del (the file is removed) | cut@<pos> | set@<pos>=<byte> | xor@<pos>=<mask>
+//	mutation       : none | del (the file is removed) | cut@<pos> | set@<pos>=<byte> | xor@<pos>=<mask> |
+//	                 put@<pos>=<hex> (1..8 bytes written from pos on: boundary patterns over a length / count / offset field)
 //	pos            : a<n> absolute | e<n> = length-n | m<permille of the length> |
 //	                 c<k>h<d> byte d of the 12-byte header of checksum chunk k | c<k>d<d> byte d of its data |
 //	                 c<k>t<d> = end of chunk k minus d | c<k>p<permille of its data>
 //	                 (segmeta: the file is segmeta.json and positions are relative to the line of segment <seg>)
 //	                 b:<col>:<blk>:l<d> | b:<col>:<blk>:o<d>  (.bsu only) byte d of the length (4 bytes) / offset (8 bytes) field of
 //	                 column <col> in block <blk>
+//	                 s:<col>:l<n> (.sst only) byte n of the 4-byte length field in front of the statistics record of <col>
 //	                 s:<col>:a<n> | s:<col>:e<n>  (.sst only) byte n of / n bytes before the end of the statistics record of
 //	                 column <col> (the columns are written in map order, so absolute positions hit a random column)
 //
@@ -33,6 +35,7 @@ import (
 	"bufio"
 	"bytes"
 	"encoding/binary"
+	"encoding/hex"
 	"encoding/json"
 	"fmt"
 	"math/big"
@@ -518,6 +521,7 @@ type sfMut struct {
 	op      string // none, cut, set, xor
 	pos     string
 	val     int
+	put     []byte // op put: the bytes written over the field that starts at pos
 	fileCls string // file kind used in witness classes (csg-ts for the timestamp column)
 }
 
@@ -573,6 +577,18 @@ func sfParseMut(s string) (m sfMut, ok bool) {
 		if m.val > 255 {
 			return
 		}
+	case "put":
+		// put@<pos>=<hex>: 1..8 bytes written over a length / count / offset field (boundary patterns)
+		pv := strings.SplitN(at[1], "=", 2)
+		if len(pv) != 2 || len(pv[1]) < 2 || len(pv[1]) > 16 || len(pv[1])%2 != 0 {
+			return
+		}
+		bs, err := hex.DecodeString(pv[1])
+		if err != nil || strings.ToLower(pv[1]) != pv[1] {
+			return
+		}
+		m.pos = pv[0]
+		m.put = bs
 	default:
 		return
 	}
@@ -601,7 +617,7 @@ func sfPosOK(p string) bool {
 			((q[3][0] == 'l' && q[3][1] >= '0' && q[3][1] <= '3') || (q[3][0] == 'o' && q[3][1] >= '0' && q[3][1] <= '7'))
 	case 's':
 		q := strings.Split(p, ":")
-		return len(q) == 3 && q[0] == "s" && q[1] != "" && len(q[1]) < 20 && len(q[2]) >= 2 && len(q[2]) < 8 && (q[2][0] == 'a' || q[2][0] == 'e') && digitsOnly(q[2][1:])
+		return len(q) == 3 && q[0] == "s" && q[1] != "" && len(q[1]) < 20 && len(q[2]) >= 2 && len(q[2]) < 8 && (q[2][0] == 'a' || q[2][0] == 'e' || q[2][0] == 'l') && digitsOnly(q[2][1:])
 	}
 	return false
 }
@@ -690,6 +706,12 @@ func sfResolve(pos string, b []byte, lo, hi int) int {
 		d, _ := strconv.Atoi(q[2][1:])
 		if elo < 0 {
 			return -1
+		}
+		if q[2][0] == 'l' { // byte d of the 4-byte length field in front of the column's record
+			if d > 3 {
+				return -1
+			}
+			return elo - 4 + d
 		}
 		if q[2][0] == 'a' {
 			if elo+d >= ehi {
@@ -819,6 +841,14 @@ func sfApply(dir string, m sfMut, nseg int) (changed bool, damaged map[int]bool,
 	switch m.op {
 	case "cut":
 		b = b[:p]
+	case "put":
+		if p+len(m.put) > len(b) {
+			return false, damaged, "position-outside-file"
+		}
+		if bytes.Equal(b[p:p+len(m.put)], m.put) {
+			return false, damaged, "same-byte"
+		}
+		copy(b[p:], m.put)
 	case "set":
 		if b[p] == byte(m.val) {
 			return false, damaged, "same-byte"
@@ -1385,6 +1415,45 @@ func genSegfault(r *rand.Rand, n int, tier string) []string {
 	add("sst", "del")
 	add("cmi:s", "del")
 	add("cmi:n", "del")
+	// boundary patterns written over whole length / count / offset fields (single-byte changes never produce a value
+	// near 2^32 or 2^64 in a field whose high bytes are zero): all ones, 2^n-8, the sign bit, the largest positive
+	// value, 1 — little and big endian.  Field positions by the formats:
+	//   .sst  s:<col>:l0 sst length of the column (4)   s:<col>:a10 HLL size (4)   s:<col>:a2 count (8)   a1 first name length (2)
+	//   .bsu  b:<col>:<blk>:l0 block length (4), :o0 block offset (8)   a0 blkSumLen (4)  a22 recCount (2)  a24 numCols (2)  a26 first name length (2)
+	//   .cmi  a0 cmilen (4)  a4 blkNum (2); bloom: a7 m (8 BE), a15 k (8 BE), a23 bitset length (8 BE); range index: a7 key length (2)
+	//   .csg  c<k>h8 chunk length (4), c<k>h4 checksum (4); dictionary block: c<k>d1 number of words (2), c<k>d4 word length (2)
+	//   rollup a2 number of buckets (2), a13 bitset size (2), a15 bitset length (8 BE);  pqmr a2 bitset size (2), a4 bitset length (8 BE)
+	pat := map[int][]string{
+		2: {"ffff", "f8ff", "fff8", "0080", "8000", "ff7f", "7fff", "0100", "0001"},
+		4: {"ffffffff", "f8ffffff", "fffffff8", "00000080", "80000000", "ffffff7f", "7fffffff", "01000000", "00000001"},
+		8: {"ffffffffffffffff", "f8ffffffffffffff", "fffffffffffffff8", "0000000000000080", "8000000000000000", "ffffffffffffff7f", "7fffffffffffffff", "0100000000000000", "0000000000000001"},
+	}
+	type field struct {
+		file, pos string
+		w         int
+	}
+	fields := []field{
+		{"sst", "s:n:l0", 4}, {"sst", "s:n:a10", 4}, {"sst", "s:n:a2", 8}, {"sst", "s:s:l0", 4}, {"sst", "s:s:a10", 4}, {"sst", "a1", 2},
+		{"bsu", "b:u:1:l0", 4}, {"bsu", "b:timestamp:0:l0", 4}, {"bsu", "b:s:1:o0", 8}, {"bsu", "b:n:0:o0", 8}, {"bsu", "a0", 4}, {"bsu", "a22", 2}, {"bsu", "a24", 2}, {"bsu", "a26", 2},
+		{"cmi:s", "a0", 4}, {"cmi:s", "a4", 2}, {"cmi:s", "a7", 8}, {"cmi:s", "a15", 8}, {"cmi:s", "a23", 8}, {"cmi:n", "a0", 4}, {"cmi:n", "a7", 2},
+		{"csg:s", "c1h8", 4}, {"csg:s", "c1h4", 4}, {"csg:s", "c1d1", 2}, {"csg:s", "c1d4", 2}, {"csg:u", "c0h8", 4}, {"csg:timestamp", "c1h8", 4}, {"csg:timestamp", "c0d2", 8},
+		{"crup:0", "a2", 2}, {"crup:0", "a13", 2}, {"crup:0", "a15", 8}, {"pqmr:0", "a2", 2}, {"pqmr:0", "a4", 8},
+	}
+	var puts []string // every field × every pattern
+	for _, f := range fields {
+		for _, pt := range pat[f.w] {
+			puts = append(puts, f.file+"/put@"+f.pos+"="+pt)
+		}
+	}
+	// by construction in the quick tier: every field once with "all ones", the uint32 / uint64 fields also with 2^n-8
+	var putCore []string
+	for _, f := range fields {
+		putCore = append(putCore, f.file+"/put@"+f.pos+"="+pat[f.w][0])
+		if f.w >= 4 && (f.file == "sst" || f.file == "bsu" || strings.HasPrefix(f.file, "cmi")) {
+			putCore = append(putCore, f.file+"/put@"+f.pos+"="+pat[f.w][1])
+		}
+	}
+	muts = append(muts, puts...)
 	add("pqmr:0", "cut@a0", "cut@m500", "xor@a2=255", "xor@a9=1", "xor@m900=16")
 	add("crup:0", "cut@a0", "cut@m500", "xor@a0=255", "xor@a9=1", "xor@m900=16")
 	var out []string
@@ -1413,6 +1482,13 @@ func genSegfault(r *rand.Rand, n int, tier string) []string {
 				}
 			}
 		}
+		for vi, v := range variants {
+			for seg := 0; seg < v.nseg; seg++ {
+				for _, pm := range puts {
+					all = append(all, fmt.Sprintf("%d %d %s", vi, seg, pm))
+				}
+			}
+		}
 		r.Shuffle(len(all), func(i, j int) { all[i], all[j] = all[j], all[i] })
 		for _, a := range all {
 			if len(out) >= n-len(muts)/4 {
@@ -1429,6 +1505,7 @@ func genSegfault(r *rand.Rand, n int, tier string) []string {
 		"csg:s/cut@c1d1", "csg:_vid/xor@c1p500=4", "cmi:s/xor@m300=16", "cmi:n/cut@m500", "bsu/xor@m400=1", "bsu/cut@m500", "sst/xor@m400=1", "sst/cut@e1",
 		"sfm/xor@m400=1", "sfm/cut@m500", "segmeta/xor@m400=1", "segmeta/cut@m500", "pqmr:0/xor@a9=1", "crup:0/xor@a9=1", "csg:s/none",
 		"sst/cut@a1", "sst/xor@a0=255", "bsu/del", "sst/del", "sst/xor@s:n:e16=1", "csg:s/del", "csg:u/del"}
+	core = append(core, putCore...)
 	for i, c := range core {
 		if len(out) < n {
 			out = append(out, line(variants[i%2], i%2, c))
